@@ -122,6 +122,10 @@ for _p in ["C01", "C05", "C06", "C07"]:
 
 for _p in ["C01", "C03", "C05", "C06", "C07", "C08", "C09"]:
     _add_bin(_p)
+PROPS["C03"]["rule"] += ("; the E-BIN stage also decides the capacity half through generated code: in rendezvous scenarios every dependency-free function of a clean directive "
+                          "(parallel: tasks, element functions, End functions of empty collections; flow: predicate-less tasks and predicates fed by cff.Params only) parks until min(limit, count) of them "
+                          "execute at once; a timeout is a verdict only if the whole process is provably stuck; goroutine census = goroutines created by cff / generated code or, transitively, "
+                          "from the calling goroutine by non-harness code, excluding goroutines that existed before the call")
 for _p in ["C05", "C06"]:
     # stress phase of the inner driver: executions per selected early-stop scenario
     PROPS[_p]["stages"][-1]["args_tier"] = {"quick": ["-hammer=12000"], "thorough": ["-hammer=40000"]}
@@ -136,7 +140,7 @@ PROPS["C02"] = dict(
 )
 PROPS["C04"] = dict(
     stages=[ebin(2, 40)],
-    rule="programs as C02 plus parallels (Task/Tasks/Slice/Map/SliceEnd/MapEnd); scenarios inject panics (string, error, runtime error, struct, pointer values) into any subset of user functions of every kind, under fail-fast and ContinueOnError, with unfaulted sibling executions running concurrently; the inner driver is a separate process: an escaped panic kills it and is reported from its eager log; oracle = directive returns, errors.As yields *cff.PanicError whose Value is identical to an injected value of a function that ran (unless FallbackWith absorbed it), siblings return nil with exact results; non-trivial = program has a predicate / End hook / element function, or >=2 units; distinct = hash(spec)",
+    rule="programs as C02 plus parallels (Task/Tasks/Slice/Map/SliceEnd/MapEnd); scenarios inject panics (string, error, runtime error, struct, pointer values) into any subset of user functions of every kind, under fail-fast and ContinueOnError, with unfaulted sibling executions running concurrently; the inner driver is a separate process: an escaped panic kills it and is reported from its eager log; oracle = directive returns, errors.As yields *cff.PanicError whose Value is identical to an injected value of a function that ran (unless FallbackWith absorbed it), siblings return nil with exact results; non-trivial = program has a predicate / End hook / element function, or >=2 units; distinct = hash(spec); panic-first scenarios (the inner driver is built with the scheduler's hook points, tag verif): one dependency-free function panics at once while every other dependency-free function parks until the Scheduler Loop has received and finished processing a result - which can only be that panic - and only then fails: a fail-fast directive recorded the panic first and must report it",
     assumptions=BIN_ASSUME,
 )
 PROPS["C10"] = dict(
